@@ -4,6 +4,7 @@ its property (and the ones recorded in meta.json): each must be reported. Copies
 import os, subprocess, sys, tempfile, shutil, json, glob, concurrent.futures, re
 ENV = dict(os.environ, GOFLAGS="-mod=mod", GOPROXY="off", GOSUMDB="off", GOTOOLCHAIN="local")
 RENAMED = False
+XFLAGS = []
 def run(sd):
     sid = os.path.basename(sd.rstrip("/"))
     meta = json.load(open(os.path.join(sd, "meta.json")))
@@ -19,7 +20,7 @@ def run(sd):
             return sid, False, "does not build: " + b.stderr[:200]
         if RENAMED:
             # rename every local of the patched tree: the report must not depend on names
-            r = subprocess.run(["/verif/bin/renamer", "-src", d, "-dst", d], env=ENV, capture_output=True, text=True)
+            r = subprocess.run(["/verif/bin/renamer", "-src", d, "-dst", d] + XFLAGS, env=ENV, capture_output=True, text=True)
             if r.returncode != 0:
                 return sid, False, "renamer failed: " + (r.stdout + r.stderr)[:200]
             b = subprocess.run(["go", "build", "./..."], cwd=d, env=ENV, capture_output=True, text=True)
@@ -36,8 +37,9 @@ def run(sd):
         return sid, caughtOwn, " ".join(out)
     finally:
         shutil.rmtree(d, ignore_errors=True)
-RENAMED = "--renamed" in sys.argv
-sys.argv = [a for a in sys.argv if a != "--renamed"]
+RENAMED = any(a in sys.argv for a in ("--renamed", "--mirror", "--flip"))
+XFLAGS = ["-" + a[2:] for a in sys.argv if a in ("--mirror", "--flip")]
+sys.argv = [a for a in sys.argv if a not in ("--renamed", "--mirror", "--flip")]
 dirs = sorted(glob.glob("/verif/seeded/*/"))
 if len(sys.argv) > 1:
     dirs = [d for d in dirs if os.path.basename(d.rstrip("/")) in sys.argv[1:]]
